@@ -108,9 +108,11 @@ Proof.
 Qed.
 
 (** ---- transparency of the executor cache ---- *)
+Definition key_of (g : cnet) : okey := (needed_of g, loaded_names g).
+
 Definition CacheConsistent (g : cnet) (c : ecache) : Prop :=
   (forall so, ec_sort c = Some so -> sort_order g = Ok so) /\
-  (forall o, lookup_order (needed_of g) (ec_orders c) = Some o -> order_of g = Ok o).
+  (forall o, lookup_order (key_of g) (ec_orders c) = Some o -> order_of g = Ok o).
 
 Lemma CacheConsistent_empty g : CacheConsistent g empty_cache.
 Proof. split; simpl; discriminate. Qed.
@@ -118,9 +120,9 @@ Proof. split; simpl; discriminate. Qed.
 Lemma get_execution_order_cached g c o c' :
   CacheConsistent g c -> get_execution_order g c = Ok (o, c') -> order_of g = Ok o.
 Proof.
-  unfold get_execution_order, order_of. fold (needed_of g) (dep_of g). intros [Hs Ho] H.
+  unfold get_execution_order, order_of. fold (needed_of g) (dep_of g). change (needed_of g, loaded_names g) with (key_of g). intros [Hs Ho] H.
   destruct (needed_of g) as [|n0 nr] eqn:En; [inversion H; reflexivity|]. rewrite <- En in *.
-  destruct (lookup_order (needed_of g) (ec_orders c)) as [o1|] eqn:El.
+  destruct (lookup_order (key_of g) (ec_orders c)) as [o1|] eqn:El.
   - inversion H; subst. specialize (Ho _ eq_refl). unfold order_of in Ho. fold (needed_of g) in Ho.
     rewrite En in Ho. rewrite <- En in Ho. exact Ho.
   - destruct (ec_sort c) as [so|] eqn:Es.
@@ -134,9 +136,9 @@ Qed.
 Lemma get_execution_order_fresh g c o :
   CacheConsistent g c -> order_of g = Ok o -> exists c', get_execution_order g c = Ok (o, c').
 Proof.
-  unfold get_execution_order, order_of. fold (needed_of g) (dep_of g). intros [Hs Ho] H.
+  unfold get_execution_order, order_of. fold (needed_of g) (dep_of g). change (needed_of g, loaded_names g) with (key_of g). intros [Hs Ho] H.
   destruct (needed_of g) as [|n0 nr] eqn:En; [inversion H; eauto|]. rewrite <- En in *.
-  destruct (lookup_order (needed_of g) (ec_orders c)) as [o1|] eqn:El.
+  destruct (lookup_order (key_of g) (ec_orders c)) as [o1|] eqn:El.
   - specialize (Ho _ eq_refl). unfold order_of in Ho. fold (needed_of g) (dep_of g) in Ho.
     rewrite En in Ho. rewrite <- En in Ho. rewrite H in Ho. inversion Ho; subst. eauto.
   - destruct (sort_order g) as [so|] eqn:Eso; simpl in H; [|discriminate].
@@ -166,10 +168,11 @@ Proof.
     + (* both fail: the error raised is that of the same scan, up to which step failed first *)
       simpl.
       unfold get_execution_order in E1, E2. fold (needed_of g) (dep_of g) in E1, E2.
+      change (needed_of g, loaded_names g) with (key_of g) in E1, E2.
       destruct (needed_of g) as [|n0 nr] eqn:En; [discriminate|]. rewrite <- En in *.
       simpl in E2.
       destruct Hc as [Hs Ho].
-      destruct (lookup_order (needed_of g) (ec_orders c)); [discriminate|].
+      destruct (lookup_order (key_of g) (ec_orders c)); [discriminate|].
       destruct (ec_sort c) as [so|] eqn:Es.
       * rewrite (Hs _ eq_refl) in E2. simpl in *.
         destruct (scan_nodes g so); simpl in *; [discriminate|]. congruence.
@@ -178,19 +181,50 @@ Proof.
 Qed.
 
 (** ---- histories of loaded nets sharing one cache ---- *)
+(** nets of one compiled structure; when their cache keys coincide they also agree on which nodes
+    still have an operation (the key already fixes which nodes have an output) *)
 Definition coherent (g g' : cnet) : Prop :=
   c_edges g = c_edges g' /\ map fst (c_nodes g) = map fst (c_nodes g') /\
-  (needed_of g = needed_of g' ->
-   (forall n, has_out g n = has_out g' n) /\ (forall n, has_op g n = has_op g' n)).
+  (key_of g = key_of g' -> forall n, has_op g n = has_op g' n).
 
 Lemma lookup_order_app k l1 l2 :
   lookup_order k (l1 ++ l2) = match lookup_order k l1 with Some o => Some o | None => lookup_order k l2 end.
 Proof.
-  induction l1 as [|[k' o] r IH]; simpl; [reflexivity|]. destruct (names_eqb k k'); auto.
+  induction l1 as [|[k' o] r IH]; simpl; [reflexivity|]. destruct (okey_eqb k k'); auto.
 Qed.
 
 Lemma names_eqb_eq a b : names_eqb a b = true <-> a = b.
 Proof. unfold names_eqb. destruct (list_eq_dec string_dec a b); split; auto; discriminate. Qed.
+
+Lemma okey_eqb_eq a b : okey_eqb a b = true <-> a = b.
+Proof.
+  destruct a as [a1 a2], b as [b1 b2]. unfold okey_eqb. simpl. rewrite andb_true_iff, !names_eqb_eq.
+  split; [intros [-> ->]; reflexivity | intros H; inversion H; auto].
+Qed.
+
+(** equal sets of loaded nodes: the same nodes have an output *)
+Lemma In_loaded_names g n : In n (loaded_names g) <-> In n (map fst (c_nodes g)) /\ has_out g n = true.
+Proof.
+  unfold loaded_names. rewrite <- filter_In. split; intros H.
+  - now apply (Permutation_in _ (Base.StrOrder.sort_names_perm _)) in H.
+  - now apply (Permutation_in _ (Permutation_sym (Base.StrOrder.sort_names_perm _))).
+Qed.
+
+Lemma loaded_names_has_out g g' :
+  map fst (c_nodes g) = map fst (c_nodes g') -> loaded_names g = loaded_names g' ->
+  forall n, has_out g n = has_out g' n.
+Proof.
+  intros Hn Hl n.
+  destruct (in_dec string_dec n (map fst (c_nodes g))) as [Hin|Hnin].
+  - pose proof (In_loaded_names g n) as H1. pose proof (In_loaded_names g' n) as H2.
+    rewrite Hl in H1. rewrite <- Hn in H2.
+    destruct (has_out g n) eqn:E1, (has_out g' n) eqn:E2; try reflexivity.
+    + assert (H : In n (loaded_names g')) by (apply H1; auto). apply H2 in H. destruct H. discriminate.
+    + assert (H : In n (loaded_names g')) by (apply H2; auto). apply H1 in H. destruct H. discriminate.
+  - assert (H1 : lookup n (c_nodes g) = None) by now apply lookup_None_iff.
+    assert (H2 : lookup n (c_nodes g') = None) by (apply lookup_None_iff; now rewrite <- Hn).
+    unfold has_out. now rewrite H1, H2.
+Qed.
 
 Lemma consistent_after g g' c o c' :
   coherent g g' -> CacheConsistent g c -> CacheConsistent g' c ->
@@ -199,8 +233,9 @@ Proof.
   intros [He [Hn Hsh]] Hc Hc' H.
   pose proof (get_execution_order_cached _ _ _ _ Hc H) as Hord.
   unfold get_execution_order in H. fold (needed_of g) (dep_of g) in H.
+  change (needed_of g, loaded_names g) with (key_of g) in H.
   destruct (needed_of g) as [|n0 nr] eqn:En; [inversion H; subst; exact Hc'|]. rewrite <- En in *.
-  destruct (lookup_order (needed_of g) (ec_orders c)) as [o1|] eqn:El; [inversion H; subst; exact Hc'|].
+  destruct (lookup_order (key_of g) (ec_orders c)) as [o1|] eqn:El; [inversion H; subst; exact Hc'|].
   assert (Hso : forall so, (match ec_sort c with Some so => Ok so | None => sort_order g end) = Ok so -> sort_order g = Ok so).
   { intros so Hs. destruct (ec_sort c) eqn:Es; [inversion Hs; subst; now apply (proj1 Hc) | exact Hs]. }
   destruct (match ec_sort c with Some so => Ok so | None => sort_order g end) as [so|] eqn:Eso; simpl in H; [|discriminate].
@@ -213,12 +248,14 @@ Proof.
   split; simpl.
   - intros so' Hs'. inversion Hs'; subst. rewrite Hsame_sort. now apply Hso.
   - intros o' Hl'. rewrite lookup_order_app in Hl'.
-    destruct (lookup_order (needed_of g') (ec_orders c)) as [o2|] eqn:El2.
+    destruct (lookup_order (key_of g') (ec_orders c)) as [o2|] eqn:El2.
     + inversion Hl'; subst. now apply (proj2 Hc').
-    + simpl in Hl'. destruct (names_eqb (needed_of g') (needed_of g)) eqn:Ek; [|discriminate].
-      inversion Hl'; subst. apply names_eqb_eq in Ek.
-      destruct (Hsh (eq_sym Ek)) as [Hout Hop].
-      rewrite <- (order_of_shape g g'); [exact Hord | constructor; auto | now symmetry].
+    + simpl in Hl'. destruct (okey_eqb (key_of g') (key_of g)) eqn:Ek; [|discriminate].
+      inversion Hl'; subst. apply okey_eqb_eq in Ek.
+      assert (Hneeded : needed_of g = needed_of g') by (unfold key_of in Ek; inversion Ek; auto).
+      assert (Hloaded : loaded_names g = loaded_names g') by (unfold key_of in Ek; inversion Ek; auto).
+      rewrite <- (order_of_shape g g'); [exact Hord | | exact Hneeded].
+      constructor; [exact He | exact Hn | now apply loaded_names_has_out | apply Hsh; now symmetry].
 Qed.
 
 (** results of a history of executions threading one cache *)
